@@ -240,6 +240,9 @@ func sendDeadlineCase(t *testing.T, r *Recorder, c, j int) {
 func TestC14(t *testing.T) {
 	r := NewRecorder(t, "C14")
 	defer r.Close(t)
+	// the same at the level of the mailbox's control messages: consecutive messages received into one
+	// message object are not merged into or written over each other
+	msgDestAliasCases(r, "C14")
 	L, M := pick(12, 24), pick(6, 9)
 	for m := 0; m <= M; m++ {
 		for l := 0; l <= L; l++ {
